@@ -259,6 +259,10 @@ class RefSFTP:
         self.reader.feed(u32(len(payload)) + payload)
 
     def status(self, rid, code, msg='x'):
+        if getattr(self, 'bare_status', False):
+            # some servers send the status code alone, without message and language tag
+            self._send(bytes([FXP['STATUS']]) + u32(rid) + u32(code))
+            return
         self._send(bytes([FXP['STATUS']]) + u32(rid) + u32(code) + s(msg) + s(''))
 
     # ---- model
